@@ -1,6 +1,80 @@
-(* C14 — interim: executable sanity examples; theorems are added when Gsm/ScanProofs.v lands *)
-From Verif Require Import Base Regex Nfa Dfa.
+(* C14 — search returns sound, ordered, disjoint, longest and complete matches.
+   Statements only; proofs in Gsm/ScanProofs.v over the model Gsm/Dfa.v
+   (find_all after the GD2/GD3 repairs) and the specification Gsm/Scan.v. *)
+From Verif Require Import Base Regex Nfa Dfa DfaProofs Scan ScanProofs Token.
+From Coq Require Import Sorted.
+Open Scope nat_scope.
+
+(* find_all is the leftmost selection over the isolated greedy runs — for ANY
+   predicates (stateful Balanced included) and any acceptance filter (the form get_headers uses) *)
+Theorem C14_find_all_is_scan : forall P I (peqb : P -> P -> bool) (ast : P -> Z -> I -> bool * Z)
+    (a : automaton P) w f cs,
+  all_greedy peqb ast a w = OK cs ->
+  find_all_dfa peqb ast a w f = select_leftmost f 0 cs /\
+  find_all_dfa peqb ast a w f = scan_spec peqb ast a w f.
+Proof. intros. split; [eapply find_all_is_scan | eapply C14_filtered]; eassumption. Qed.
+
+Theorem C14_bounds_ordered_disjoint : forall P I (peqb : P -> P -> bool) (ast : P -> Z -> I -> bool * Z)
+    (a : automaton P) w f cs ms,
+  all_greedy peqb ast a w = OK cs -> find_all_dfa peqb ast a w f = OK ms ->
+  (forall s t, In (s, t) ms -> s < length w /\ s <= t <= length w) /\
+  StronglySorted (fun c1 c2 : cand => snd c1 <= fst c2) ms.
+Proof.
+  intros P I peqb ast a w f cs ms Hg Hf. split.
+  - apply (C14_bounds peqb ast a w f cs ms Hg Hf).
+  - apply (C14_ordered_disjoint peqb ast a w f cs ms Hg Hf).
+Qed.
+
+(* a match can only end before the end of the input when every Balanced group among the
+   current transitions is closed: while a group is open its predicate accepts every token *)
+Theorem C14_balanced_depth : forall (a : automaton tpred) (pt : pat tpred) (x : token),
+  consume tpred_eqb taccept_st a pt x = OK None ->
+  forall l r, In (PBalanced l r) (dtrans tpred_eqb (a_heap a) (p_state pt)) ->
+    (depth_of tpred_eqb (p_depths pt) (PBalanced l r) <= 0)%Z.
+Proof. exact C14_balanced_closed_at_end. Qed.
+
+Section Sem.
+  Context {P I : Type}.
+  Variable peqb : P -> P -> bool.
+  Hypothesis peqb_spec : forall p q, peqb p q = true <-> p = q.
+  Variable accepts : P -> I -> bool.
+
+  (* stateless, pairwise-disjoint predicates: never an error *)
+  Theorem C14_total : forall (e : expr P) w f,
+    wf e = true -> disjoint accepts (preds_seq e) -> (forall c, exists b, f c = OK b) ->
+    exists ms, find_all peqb (accept_st accepts) e w f = OK ms.
+  Proof. exact (C14_find_all_total peqb peqb_spec accepts). Qed.
+
+  (* bounds, soundness (word of the language), longest, ordered / non-overlapping (also at the
+     end of the sequence), completeness (every start from which the greedy run succeeds is covered) *)
+  Theorem C14_spec : forall (e : expr P) (a : automaton P) w ms,
+    wf e = true -> disjoint accepts (preds_seq e) -> to_dfa e = OK a ->
+    find_all peqb (accept_st accepts) e w (fun _ => OK true) = OK ms ->
+    (forall s t, In (s, t) ms ->
+       s < length w /\ s <= t <= length w /\ lang accepts e (sublist w s t) /\
+       (forall t', t < t' <= length w -> ~ lang accepts e (sublist w s t')) /\
+       greedy peqb (accept_st accepts) a w s = OK (Some t)) /\
+    StronglySorted (fun c1 c2 : cand => snd c1 <= fst c2) ms /\
+    (forall i t, i < length w -> i < t -> greedy peqb (accept_st accepts) a w i = OK (Some t) ->
+       exists s t', In (s, t') ms /\ s <= i < t').
+  Proof. exact (C14_find_all_spec peqb peqb_spec accepts). Qed.
+
+  (* non-nullable patterns only report non-empty matches *)
+  Theorem C14_nonempty_matches : forall (e : expr P) (a : automaton P) w i t,
+    wf e = true -> disjoint accepts (preds_seq e) -> to_dfa e = OK a ->
+    nullable_seq e = false -> greedy peqb (accept_st accepts) a w i = OK (Some t) -> i < t.
+  Proof. intros e a w i t Hwf Hd Ha Hn. exact (C14_nonempty peqb peqb_spec accepts e Hwf Hd a Ha Hn w i t). Qed.
+End Sem.
+
+Print Assumptions C14_find_all_is_scan.
+Print Assumptions C14_bounds_ordered_disjoint.
+Print Assumptions C14_balanced_depth.
+Print Assumptions C14_total.
+Print Assumptions C14_spec.
+Print Assumptions C14_nonempty_matches.
+
 Open Scope Z_scope.
-Example C14_ex_no_overlap_at_end :
-  find_all id_peqb id_accept_st [Plus [Atom 1]] [2; 1; 1] (fun _ => OK true) = OK [(1, 3)%nat].
+Example C14_example :
+  find_all id_peqb id_accept_st [Atom 1; Plus [Union [Atom 2] [Atom 3]]] [9; 1; 2; 3; 1; 1; 3; 9; 1; 2] (fun _ => OK true)
+  = OK [(1, 4); (5, 7); (8, 10)]%nat.
 Proof. vm_compute. reflexivity. Qed.
